@@ -240,8 +240,16 @@ def c01(scn, x):
                 excused = (suffix, variant, state) in failed_sets or vm in failed_creation
                 if not excused:
                     residue = _residue_signature(scn, x, e, m)
+                    # was the state there earlier in this run and removed by the traversal's own cleanup (not recreated since)?
+                    cleaned = next((u for u in reversed(x.trace[:x.trace.index(e)]) if u["k"] == "door" and u["do"] == "unset"
+                                    and any(it[0] == suffix and it[2] == state for it in u["items"]) and _reach(scn, e["w"], u["w"])), None)
+                    if cleaned is not None and residue is None:
+                        scopes = str(scn.params.get("pool_scope", "own swarm cluster shared")).split()
+                        residue = {"clause": "missing-after-cleanup", "lazy": bool(scn.lazy), "cross_worker": cleaned["w"] != e["w"],
+                                   "scope": "run" if ("swarm" in scopes and "cluster" in scopes) else ("swarm" if "swarm" in scopes else "worker")}
                     out.append({"what": f"{e['w']} starts {e['short']} at t={e['t']} without required state {state} of {suffix} "
-                                        f"(get_location={e['locs'].get(suffix)!r}); no failed attempt of its producer or creation step before",
+                                        f"(get_location={e['locs'].get(suffix)!r}); no failed attempt of its producer or creation step before"
+                                        + (f"; the state was removed by {cleaned['w']} at t={cleaned['t']}" if cleaned is not None else ""),
                                 "signature": residue or {"clause": "missing-state", "test": short(e["ident"]), "state": state}})
         elif e["k"] == "end" and e["status"] != "PASS":
             st = seq2start[e["seq"]]
